@@ -422,11 +422,40 @@ def small_scope(tier):
             ("outer", lambda a, b: ufl.outer(a, b)[0, 1]),
             ("vcond", lambda a, b: ufl.inner(ufl.conditional(cnd, a, b), g)),
             ("vsum", lambda a, b: ufl.inner(g, a + b))]
+    # linear wrappers: the arity of the operand must pass THROUGH them -- combine a wrapped operand with a
+    # second operand so that hidden arguments show up as quadratic / affine integrands
+    j = ufl.Index()
+    wrappers = [
+        ("var", lambda a: ufl.variable(a)), ("pos", lambda a: a("+")), ("neg", lambda a: a("-")),
+        ("grad", lambda a: ufl.grad(a)[0]), ("divf", lambda a: a / f), ("cond0", lambda a: ufl.conditional(cnd, a, 0)),
+        ("cond0b", lambda a: ufl.conditional(cnd, 0, a)), ("isum", lambda a: ufl.as_vector([a, 2 * a])[i] * g[i]),
+        ("ct", lambda a: ufl.as_vector(a * g[j], j)[1]), ("cc", lambda a: ufl.conj(ufl.conj(a))),
+        ("refval", lambda a: ufl.classes.ReferenceValue(a)),
+    ]
+    wnames = {"f", "v", "u", "cv", "uv", "ucv"} | ({"w", "fv"} if tier == "thorough" else set())
+    for wn, wf in wrappers:
+        sops.append((f"{wn}_prod", lambda a, b, wf=wf: wf(a) * b))
+        if tier == "thorough":
+            sops.append((f"{wn}_sum", lambda a, b, wf=wf: wf(a) + b))
+    # arguments with explicit parts (blocks of a MixedFunctionSpace): the parts of one argument NUMBER belong
+    # together -- products of two parts of the same number are quadratic in that argument
+    p0, p1 = ufl.Argument(S, 0, part=0), ufl.Argument(S, 0, part=1)
+    q0, q1 = ufl.Argument(S, 1, part=0), ufl.Argument(S, 1, part=1)
+    pkinds = [("0", zero), ("f", f), ("p0", p0), ("p1", p1), ("cp0", ufl.conj(p0)), ("cp1", ufl.conj(p1)),
+              ("q0", q0), ("q1", q1), ("q0cp0", q0 * ufl.conj(p0)), ("q1cp0", q1 * ufl.conj(p0)),
+              ("q0cp1", q0 * ufl.conj(p1)), ("p0p1", p0 * p1)]
+    pops = [o_ for o_ in sops if o_[0] in ("sum", "prod", "cond", "lt", "var_prod")
+            or (tier == "thorough" and o_[0] in ("div", "pos_prod", "grad_prod"))]
+    if tier != "thorough":
+        pkinds = [k for k in pkinds if k[0] not in ("cp1", "q1cp0", "q0cp1")]
     out, seen = [], set()
-    for ops, kinds in ((sops, skinds), (vops, vkinds)):
+    for ops, kinds in ((sops, skinds), (vops, vkinds), (pops, pkinds)):
         for on, op in ops:
             for an, a in kinds:
                 for bn, b in kinds:
+                    if kinds is skinds and (on.endswith("_prod") or on.endswith("_sum")) and on not in ("prod_u",) \
+                            and (an not in wnames or bn not in wnames):
+                        continue
                     try:
                         e = op(a, b)
                     except Exception:
@@ -439,5 +468,5 @@ def small_scope(tier):
                         if key in seen:
                             continue
                         seen.add(key)
-                        out.append((f"{on}_{an}_{bn}", e, args, cm))
+                        out.append((f"{'P' if kinds is pkinds else ''}{on}_{an}_{bn}", e, args, cm))
     return out
